@@ -203,6 +203,11 @@ pub fn lang_campaign(name: &'static str, target: &'static str, ctx: &mut Ctx, ju
     }
 }
 
+/// large quantities (bounds, literal length, alternatives, groups, nesting between 5 and 40) with long matching inputs
+pub fn scaled_part(cfg: &GenCfg, flag_letters: &'static str) -> BoxedStrategy<AstCase> {
+    gen::scaled_strategy(cfg, flag_letters).prop_map(|(node, flags, inputs)| AstCase { node, flags, inputs: Inputs::Lit(inputs) }).boxed()
+}
+
 impl Prop for C01 {
     type Case = AstCase;
     fn id(&self) -> &'static str {
@@ -227,6 +232,7 @@ impl Prop for C01 {
             Part { name: "random-abc".into(), strategy: s, cases: tier.pick(300_000, 6_000_000) },
             Part { name: "random-anchors-backrefs".into(), strategy: s2, cases: tier.pick(200_000, 4_000_000) },
             Part { name: "shortcut-shapes".into(), strategy: s3, cases: tier.pick(150_000, 3_000_000) },
+            Part { name: "scaled".into(), strategy: scaled_part(&cfg2, "ims"), cases: tier.pick(40_000, 600_000) },
         ]
     }
     fn enumerations(&self, tier: Tier) -> Vec<(String, String, Box<dyn Iterator<Item = AstCase> + Send>)> {
